@@ -38,6 +38,11 @@ var (
 	errKeyOutOfBound = errors.New("given key does not belong to the keyspace")
 )
 
+// IsKeyOutOfBound reports whether err says that a key or a range lies outside the codec's keyspace.
+func IsKeyOutOfBound(err error) bool {
+	return errors.Is(err, errKeyOutOfBound)
+}
+
 func checkV2Key(b []byte) error {
 	if len(b) < keyspacePrefixLen || (b[0] != RawModePrefix && b[0] != TxnModePrefix) {
 		return errors.Errorf("invalid API V2 key %s", b)
